@@ -174,6 +174,12 @@ func (v *Vector[T]) ReadFrom(r io.Reader) (n int64, err error) {
 
 		n += inc
 
+		// A component takes at least one byte: a negative length, or one larger than the
+		// number of unread bytes when it is known (Buffer), cannot be honoured.
+		if b, isBuffer := r.(*buffer.Buffer); size < 0 || (isBuffer && size > b.Size()) {
+			return n, fmt.Errorf("invalid vector length: %w", io.ErrUnexpectedEOF)
+		}
+
 		if cap(*v) < size {
 			*v = make([]T, size)
 		}
